@@ -915,7 +915,9 @@ class RecordLayer(object):
             try:
                 if isinstance(header, RecordHeader2):
                     if self.version not in ((2, 0), (0, 2)) and \
-                            self._readState and self._readState.encContext:
+                            self._readState and \
+                            (self._readState.encContext or
+                             self._readState.macContext):
                         # SSLv2 framing is valid only for the initial,
                         # unencrypted, ClientHello of SSLv3 and later
                         raise TLSIllegalParameterException(
